@@ -2,6 +2,7 @@ package checks
 
 import (
 	"fmt"
+	"strings"
 	"sync"
 	"testing"
 	"time"
@@ -46,6 +47,9 @@ func c05Build(c c05Case, now time.Time) *w.State {
 		opts = append(opts, w.WithCanary("1", D, 0, "auto"))
 	case "manual":
 		opts = append(opts, w.WithCanary("1", 0, 0, "manual"))
+	case "manual+duration":
+		// an object defaulted under auto whose mode was later switched to manual: the duration is still there
+		opts = append(opts, w.WithCanary("1", D, 0, "manual"))
 	}
 	eds := w.NewEDS("ns", "foo", "B", opts...)
 	eds = v1.DefaultExtendedDaemonSet(eds, v1.ExtendedDaemonSetSpecStrategyCanaryValidationModeAuto)
@@ -63,6 +67,9 @@ func c05Build(c c05Case, now time.Time) *w.State {
 		}
 		if c.Strategy == "manual" {
 			cs.NoRestartsDuration = nil
+		}
+		if c.Strategy == "manual+duration" {
+			cs.ValidationMode = v1.ExtendedDaemonSetSpecStrategyCanaryValidationModeManual
 		}
 	}
 	rsA := mkERS("ns", "foo-a", "foo", w.Tpl("A"), now.Add(-time.Hour))
@@ -133,7 +140,7 @@ func c05Build(c c05Case, now time.Time) *w.State {
 
 func c05Cases() []c05Case {
 	var out []c05Case
-	for _, st := range []string{"none", "auto", "manual"} {
+	for _, st := range []string{"none", "auto", "manual", "manual+duration"} {
 		for _, age := range []int{-1, 0, 1} {
 			for _, nr := range []string{"unset", "0", "30s"} {
 				for _, ro := range []string{"none", "-1", "0", "1"} {
@@ -142,7 +149,10 @@ func c05Cases() []c05Case {
 							for _, v := range []string{"none", "this", "other"} {
 								for _, f := range []string{"absent", "True", "False"} {
 									for _, a := range []string{"present", "missing", "empty", "equal"} {
-										if st != "auto" && (age != 0 || nr != "unset") {
+										if st == "manual+duration" && (nr != "unset" || ro != "none") {
+											continue
+										}
+										if st != "auto" && st != "manual+duration" && (age != 0 || nr != "unset") {
 											continue // durations are meaningless without an auto canary
 										}
 										out = append(out, c05Case{st, age, nr, ro, p, up, v, f, a})
@@ -170,6 +180,9 @@ func c05Eval(t *testing.T, run *h.Run, c c05Case) {
 			return
 		}
 		sig, msg, changed := w.CheckPromotion(pre, post, "ns", "foo")
+		if rr.Err != nil && strings.HasPrefix(sig, "C05/adopt") {
+			sig = "" // the reconcile reported an error (e.g. an invalid spec): adoption is only promised for a successful one
+		}
 		if changed {
 			run.Count("antecedent:active-changed", 1)
 			run.Nontrivial(fmt.Sprintf("changed:%s age%d nr%s ro%s p%s v%s f%s a%s", c.Strategy, c.AgeOff, c.NR, c.RestartOff, c.Pause, c.Valid, c.Failed, c.Active))
